@@ -1112,7 +1112,16 @@ static size_t ares_calc_query_timeout(const ares_query_t   *query,
    * retry from the last retry */
   rounds = (query->try_count / num_servers);
   if (rounds > 0) {
-    timeplus <<= rounds;
+    /* With a large tries setting the shift count can reach or exceed the width
+     * of size_t (undefined behaviour) or the doubled value can overflow, so
+     * saturate instead.  INT_MAX milliseconds is the largest timeout that can
+     * be configured. */
+    if (rounds >= (sizeof(timeplus) * 8) ||
+        timeplus > (((size_t)INT_MAX) >> rounds)) {
+      timeplus = (size_t)INT_MAX;
+    } else {
+      timeplus <<= rounds;
+    }
   }
 
   if (channel->maxtimeout && timeplus > channel->maxtimeout) {
